@@ -32,6 +32,8 @@ pub const SPEC_CANCUN: u8 = 11;
 pub const SPEC_PRAGUE: u8 = 12;
 
 pub const BLOCK_NUMBER: u64 = 1000;
+/// `TxDef::prio` sentinel: priority fee one above the max fee (an invalid transaction)
+pub const PRIO_OVER: u64 = u64::MAX;
 pub const CHAIN_ID: u64 = 1;
 
 /// Symbolic address; resolved by `World::addr`.
